@@ -372,6 +372,105 @@ func c12Solo(c *mon.Ctx) {
 			c.V("addition-not-listed", fmt.Sprintf("after %d additions Names() has %d entries, want %d", k+1, len(g.Names()), before+k+1), "", nil, nil)
 		}
 	}
+	// registrations the registry must REFUSE (the documented refusal is a panic) and that must leave it untouched:
+	// nil lint, a constructor that returns nil, an empty name, a name already taken - through each of the four public
+	// registration functions. "Every lint has a name, ... a non-nil implementation" holds for whatever IS registered
+	// only because these never get in.
+	{
+		listing := func() string {
+			var l []string
+			for _, x := range g.CertificateLints().Lints() {
+				l = append(l, "c:"+x.Name)
+			}
+			for _, x := range g.RevocationListLints().Lints() {
+				l = append(l, "r:"+x.Name)
+			}
+			for _, x := range g.OcspResponseLints().Lints() {
+				l = append(l, "o:"+x.Name)
+			}
+			return strings.Join(g.Names(), ",") + "|" + strings.Join(l, ",")
+		}
+		taken := g.Names()[5]
+		md := func(n string) lint.LintMetadata {
+			return lint.LintMetadata{Name: n, Description: "verif refused", Citation: "verif", Source: lint.Community}
+		}
+		attempts := map[string]func(){
+			"nil certificate lint": func() { lint.RegisterCertificateLint(nil) },
+			"nil CRL lint":         func() { lint.RegisterRevocationListLint(nil) },
+			"nil OCSP lint":        func() { lint.RegisterOcspResponseLint(nil) },
+			"nil deprecated lint":  func() { lint.RegisterLint(nil) },
+			"certificate lint whose constructor returns nil": func() {
+				lint.RegisterCertificateLint(&lint.CertificateLint{LintMetadata: md("e_verif_c12_nilimpl_cert"), Lint: func() lint.CertificateLintInterface { return nil }})
+			},
+			"CRL lint whose constructor returns nil": func() {
+				lint.RegisterRevocationListLint(&lint.RevocationListLint{LintMetadata: md("e_verif_c12_nilimpl_crl"), Lint: func() lint.RevocationListLintInterface { return nil }})
+			},
+			"OCSP lint whose constructor returns nil": func() {
+				lint.RegisterOcspResponseLint(&lint.OcspResponseLint{LintMetadata: md("e_verif_c12_nilimpl_ocsp"), Lint: func() lint.OcspResponseLintInterface { return nil }})
+			},
+			"deprecated lint whose constructor returns nil": func() {
+				lint.RegisterLint(&lint.Lint{Name: "e_verif_c12_nilimpl_legacy", Description: "x", Source: lint.Community, Lint: func() lint.LintInterface { return nil }})
+			},
+			"certificate lint without constructor": func() {
+				lint.RegisterCertificateLint(&lint.CertificateLint{LintMetadata: md("e_verif_c12_noctor_cert")})
+			},
+			"CRL lint without constructor": func() {
+				lint.RegisterRevocationListLint(&lint.RevocationListLint{LintMetadata: md("e_verif_c12_noctor_crl")})
+			},
+			"OCSP lint without constructor": func() {
+				lint.RegisterOcspResponseLint(&lint.OcspResponseLint{LintMetadata: md("e_verif_c12_noctor_ocsp")})
+			},
+			"certificate lint with an empty name": func() {
+				lint.RegisterCertificateLint(&lint.CertificateLint{LintMetadata: md(""), Lint: func() lint.CertificateLintInterface { return probeCert{} }})
+			},
+			"CRL lint with an empty name": func() {
+				lint.RegisterRevocationListLint(&lint.RevocationListLint{LintMetadata: md(""), Lint: func() lint.RevocationListLintInterface { return probeCRL{} }})
+			},
+			"OCSP lint with an empty name": func() {
+				lint.RegisterOcspResponseLint(&lint.OcspResponseLint{LintMetadata: md(""), Lint: func() lint.OcspResponseLintInterface { return probeOCSP{} }})
+			},
+			"deprecated lint with an empty name": func() {
+				lint.RegisterLint(&lint.Lint{Name: "", Description: "x", Source: lint.Community, Lint: func() lint.LintInterface { return probeCert{} }})
+			},
+			"certificate lint under a taken name": func() {
+				lint.RegisterCertificateLint(&lint.CertificateLint{LintMetadata: md(taken), Lint: func() lint.CertificateLintInterface { return probeCert{} }})
+			},
+			"CRL lint under a taken name": func() {
+				lint.RegisterRevocationListLint(&lint.RevocationListLint{LintMetadata: md(taken), Lint: func() lint.RevocationListLintInterface { return probeCRL{} }})
+			},
+			"OCSP lint under a taken name": func() {
+				lint.RegisterOcspResponseLint(&lint.OcspResponseLint{LintMetadata: md(taken), Lint: func() lint.OcspResponseLintInterface { return probeOCSP{} }})
+			},
+			"deprecated lint under a taken name": func() {
+				lint.RegisterLint(&lint.Lint{Name: taken, Description: "x", Source: lint.Community, Lint: func() lint.LintInterface { return probeCert{} }})
+			},
+		}
+		var labels []string
+		for l := range attempts {
+			labels = append(labels, l)
+		}
+		sort.Strings(labels)
+		for _, l := range labels {
+			beforeL := listing()
+			refused := false
+			func() {
+				defer func() {
+					if r := recover(); r != nil {
+						refused = true
+					}
+				}()
+				attempts[l]()
+			}()
+			c.R.Count("evaluations", 1)
+			c.R.Count("refused_registrations_tried", 1)
+			if listing() != beforeL {
+				c.V("bad-registration-changed-registry|"+l, "registering a "+l+" changed the registry's names / listings", "", nil, nil)
+			} else if !refused {
+				c.V("bad-registration-not-refused|"+l, "registering a "+l+" was not refused (no panic, as documented for Register*Lint)", "", nil, nil)
+			}
+		}
+		pass("after the refused registrations")
+	}
 	// a name registered once must be refused a second time, whatever the kind
 	for _, dup := range []func(){
 		func() {
